@@ -108,7 +108,7 @@ func init() {
 	register(&PropDef{
 		ID: "C03", Patterns: []string{"./interp"}, Specs: []string{"ops", "consts"},
 		Extra: func(r *Run) { r.dispatchTables() },
-		Covered: []string{"representableConst for every integer kind and every integer constant", "constant folders: untyped operands fold to go/constant's operation with the spec token (QUO_ASSIGN exactly for untyped integer results); typed operands compute the kind's operation (every branch: int, float, complex, string; bitwise and shift folders in bit-vector variants)", "typed constant overflow must be rejected (known finding)", "representableConst for float, complex, string and bool kinds", "convertConst / convertConstantValue / genValueAs: single rounding per target kind, no refusal of representable constants", "representable / convertUntyped imply representableConst; return statement, comparison operand and send statement (finding) demand representability", "constant builtins len/complex/real/imag", "default type of untyped constants (by value kind, else by category)", "comparison of two untyped constants is folded with go/constant.Compare", "assignment and index rules of typecheck.go (shared with C12)", "comparison folding: compareConst against go/constant.Compare with the token of constCmp, whose cells are decided entry by entry", "real/imag of constants read their operand with vComplex", "&& and || of two boolean constants give the node its value"},
+		Covered: []string{"representableConst for every integer kind and every integer constant", "constant folders: untyped operands fold to go/constant's operation with the spec token (QUO_ASSIGN exactly for untyped integer results); typed operands compute the kind's operation (every branch: int, float, complex, string; bitwise and shift folders in bit-vector variants)", "typed constant overflow must be rejected (known finding)", "representableConst for float, complex, string and bool kinds", "convertConst / convertConstantValue / genValueAs: single rounding per target kind, no refusal of representable constants", "representable / convertUntyped imply representableConst; return statement, comparison operand and send statement (finding) demand representability", "constant builtins len/complex/real/imag", "default type of untyped constants (by value kind, else by category)", "comparison of two untyped constants is folded with go/constant.Compare", "assignment and index rules of typecheck.go (shared with C12)", "comparison folding: compareConst against go/constant.Compare with the token of constCmp, whose cells are decided entry by entry", "real/imag of constants read their operand with vComplex", "&& and || of two boolean constants give the node its value", "constOperand / compareConst: typed integer, string and bool constants are compared by value under the operator token; variables of binary packages are not constants", "the result type of a comparison is never pushed into its operand expressions (pre-order unit, call guard on fixUntyped, isBoolAction)"},
 		Uncov:   []string{"rounding inside go/constant (its functions are uninterpreted)", "iota bookkeeping and implicit repetition (ast/gta/cfg walks)", "literal parsing", "the remaining places where cfg gives a constant a type (composite literal elements, map keys, call arguments: they go through check.assignment, which is under contract, but the call sites are not)"},
 		Trusted: []string{"T1 go toolchain, solvers", "T2 govc", "T4 go/constant computes exact constant arithmetic (BinaryOp/UnaryOp/Shift/ToInt uninterpreted functions of the token; BitLen(x) <= k iff |x| < 2^k)", "T3 reflect.Value model"},
 	})
@@ -173,7 +173,7 @@ func init() {
 func init() {
 	register(&PropDef{
 		ID: "C07", Patterns: []string{"./interp"},
-		Covered: []string{"script calling a host function from a multi-value assignment: each result is stored in a new slot for a newly declared variable and in place for a redeclared or assigned one (slot identity, for every position)", "plain host call: result i is stored in slot findex+i, func results replace the slot, no other slot is touched", "frame ids of wrapper frames (shared with C09/C10)", "callBin argument vectors (variadic spread, interface wrapping by the first implemented interface of getMapType)", "genFunctionWrapper: host arguments land in the parameter slots, results are read from the result slots", "genValueRecv: a pointer is followed at every step of an embedded-field path", "Symbols: wrappers and variables are bound to the root frame", "getWrapper: composed wrappers are chosen by the complete method set", "method values bind their receiver when evaluated (value receivers copied)", "valueInterfaceValue removes every interpreter wrapper and returns a plain value as it is"},
+		Covered: []string{"script calling a host function from a multi-value assignment: each result is stored in a new slot for a newly declared variable and in place for a redeclared or assigned one (slot identity, for every position)", "plain host call: result i is stored in slot findex+i, func results replace the slot, no other slot is touched", "frame ids of wrapper frames (shared with C09/C10)", "callBin argument vectors (variadic spread, interface wrapping by the first implemented interface of getMapType)", "genFunctionWrapper: host arguments land in the parameter slots, results are read from the result slots", "genValueRecv: a pointer is followed at every step of an embedded-field path", "Symbols: wrappers and variables are bound to the root frame", "getWrapper: composed wrappers are chosen by the complete method set", "method values bind their receiver when evaluated (value receivers copied)", "valueInterfaceValue removes every interpreter wrapper and returns a plain value as it is", "a variable of a binary package is not a compile-time constant: its node designates the variable at run time (selector case of cfg, getBinVar)"},
 		Uncov:   []string{"getFunc's result slice", "genInterfaceWrapper beyond the wrapper choice", "Execute's wrapping of function results", "reflect.Call itself"},
 		Trusted: []string{"T1 go toolchain, solvers", "T2 govc", "T3 reflect.Value model", "value functions are pure lookups; destinations of one assignment are distinct slots (assumed)"},
 	})
